@@ -87,7 +87,12 @@ InitS(t) ==
 
 ----------------------------------------------------------------------------
 (* graph / node lifecycle                                                  *)
-OnGstart(e) == Ok([S EXCEPT !.par[e.g] = <<e.pg, e.pn>>, !.gcyc[e.g] = 0])
+\* Named deviation (sampled initialisation, nested_bindings.h schedule_sampled_input_consumers - documented design):
+\* when a nested child graph starts, consumers of its boundary inputs whose plain validity gate is empty are scheduled
+\* once for the cycle of the start, so the engine may run a cycle at the start time of a nested graph although no node
+\* asked for it.  Accepted only at exactly that time.
+OnGstart(e) == Ok([S EXCEPT !.par[e.g] = <<e.pg, e.pn>>, !.gcyc[e.g] = 0,
+                            !.reqT = IF e.pg >= 0 THEN @ \cup {IF S.rnow # 0 THEN S.rnow ELSE P(tid).start} ELSE @])
 
 OnNstarted(e) ==
     IF ~IsNode(e.id) THEN Ok(S)
